@@ -60,7 +60,7 @@ def gen_cases(ctx):
     for i in range(ctx.scale(200, 12000)):
         inst = gen.gen_instance(rng, None, max_jobs=rng.choice([1, 2, 3, 5, 8]), max_machines=rng.choice([1, 2, 3, 4]))
         yield {"kind": "chart", "instance": inst, "seed": rng.randrange(2**31),
-               "partial": rng.random() < 0.4, "xlim": rng.choice([None, None, "plus", "big"]),
+               "partial": rng.random() < 0.4, "xlim": rng.choice([None, None, "plus", "big", "minus"]),
                "labels": rng.random() < 0.3, "cmap": rng.choice(["viridis", "plasma", "tab20"])}
     lengths = [1, 9, 10, 11, 99, 100, 101, 120]
     if ctx.tier == "thorough":
@@ -150,7 +150,8 @@ def run_chart(ctx, case):
     r = run.r
     want = [(r.machine_of[o], r.start[o], r.end[o], r.op_job[o]) for o in r.start]
     mk = r.makespan()
-    xlim = {None: None, "plus": mk + rng.randint(1, 7), "big": mk * 3 + 10}[case["xlim"]]
+    xlim = {None: None, "plus": mk + rng.randint(1, 7), "big": mk * 3 + 10,
+            "minus": max(1, mk - rng.randint(1, max(1, mk // 2)))}[case["xlim"]]
     labels = [f"J<{j}>" for j in range(r.num_jobs)] if case["labels"] else None
     fig, ax = plot_gantt_chart(run.d.schedule, xlim=xlim, job_labels=labels, cmap_name=case["cmap"],
                                number_of_x_ticks=rng.choice([15, 3, 7]))
